@@ -230,6 +230,8 @@ trait Fl: Copy + PartialOrd + Debug + Clamp + IsBetween<Output = bool> + Wrap + 
     fn of(x: i64, s: u32) -> Self;
     fn scaled(self, s: u32) -> i64;
     fn to_f64(self) -> f64;
+    /// (self, target) pairs whose difference is EXACTLY half a turn in this float type
+    fn half_turns() -> Vec<(Self, Self)> where Self: Sized;
 }
 macro_rules! fl { ($t:ty) => {
     impl Fl for $t {
@@ -241,6 +243,10 @@ macro_rules! fl { ($t:ty) => {
             if v.fract() == 0.0 && v.abs() < 1e9 { v as i64 } else { INEXACT }
         }
         fn to_f64(self) -> f64 { self as f64 }
+        fn half_turns() -> Vec<($t, $t)> {
+            let pi = <$t as num_traits::FloatConst>::PI();
+            vec![(0.0, pi), (-pi / 2.0, pi / 2.0), (pi, 0.0), (pi / 2.0, -pi / 2.0), (-pi, 0.0), (0.0, -pi), (pi / 4.0, pi / 4.0 + pi)]
+        }
     }
 }}
 fl!(f32); fl!(f64);
@@ -309,6 +315,15 @@ fn drive_float<T: Fl>(out: &mut TraceOut, rng: &mut StdRng, n: usize) {
                 let k = ((d - (fb.to_f64() - fa.to_f64())) / std::f64::consts::TAU).round() as i64;
                 out.emit(json!({"op": "delta_angle", "ty": T::NAME, "s": 16, "x": (fa.to_f64() * 65536.0).round() as i64, "lo": 0,
                     "hi": (fb.to_f64() * 65536.0).round() as i64, "k": k, "r": (d * 65536.0).round() as i64}));
+            }
+            // exactly half a turn apart: the range is (-pi, pi], so the answer is +pi, never -pi
+            for (fa, fb) in T::half_turns() {
+                if let Some(d) = guarded(|| Wrap::<T>::delta_angle(fa, fb)) {
+                    let d = d.to_f64();
+                    let k = ((d - (fb.to_f64() - fa.to_f64())) / std::f64::consts::TAU).round() as i64;
+                    out.emit(json!({"op": "delta_angle", "ty": T::NAME, "s": 16, "x": (fa.to_f64() * 65536.0).round() as i64, "lo": 0, "half": 1,
+                        "hi": (fb.to_f64() * 65536.0).round() as i64, "k": k, "r": (d * 65536.0).round() as i64}));
+                }
             }
             // the fixed-bound forms: clamp to [0,1] and [-1,1] (four aliases), wrap to [0, 2 pi) (two aliases)
             let one = 1i64 << s;
